@@ -95,6 +95,15 @@ fn fresh(cfg: &Value, rng: &mut Rng) -> World {
     World { t, tx, rx, c, seq: rng.next() as u16, _sock: sock_tx }
 }
 
+fn fnv64(b: &[u8]) -> u64 {
+    let mut h: u64 = 0xcbf29ce484222325;
+    for x in b {
+        h ^= *x as u64;
+        h = h.wrapping_mul(0x100000001b3);
+    }
+    h
+}
+
 fn li(v: &Value) -> usize {
     v.as_u64().unwrap() as usize - 1
 }
@@ -194,15 +203,38 @@ fn poll(w: &mut World, sent: Option<(u32, u16)>) -> (Vec<u64>, bool) {
     (got, intact)
 }
 
-fn run_demux(edges: &[Value], out: &mut NdjsonOut, shard: (usize, usize)) {
+/// A probe line `{cfg, pre, after, probes:[<<s,pt,rid,mid,allowed,rule,delivered,bound,by,closedHit,holders,provs,
+/// identified,unreg>>..]}` stands for one ordinary edge per probe packet, all with the same history.
+fn expand(line: &Value) -> Vec<Value> {
+    let Some(probes) = line["probes"].as_array() else {
+        return vec![line.clone()];
+    };
+    probes.iter().map(|p| json!({
+        "cfg": line["cfg"], "pre": line["pre"],
+        "act": {"op": "pkt", "s": p[0], "pt": p[1], "rid": p[2], "mid": p[3]},
+        "exp": {"delivered": {"allowed": p[4], "rule": p[5]}},
+        "ext": {"delivered": p[6], "bound": p[7]},
+        "cls": {"by": p[8], "closedHit": p[9], "holders": p[10], "provs": p[11], "identified": p[12], "unreg": p[13],
+                "after": line["after"]},
+    })).collect()
+}
+
+fn run_demux(lines: &[Value], out: &mut NdjsonOut, shard: (usize, usize), hash_path: &str) {
     let rt = tokio::runtime::Builder::new_current_thread().enable_all().build().unwrap();
     let mut rng = Rng::from_env();
     let (mut n, mut steps, mut panics, mut drift, mut unreg, mut deliveries) = (0u64, 0u64, 0u64, 0u64, 0u64, 0u64);
+    let mut nlines = 0u64;
+    let edges: Vec<Value> = lines.iter().enumerate().filter(|(i, _)| i % shard.1 == shard.0)
+        .flat_map(|(_, l)| { nlines += 1; expand(l) }).collect();
+    let mut hashes: Vec<u8> = Vec::new();
     for (idx, e) in edges.iter().enumerate() {
-        if idx % shard.1 != shard.0 {
-            continue;
-        }
         n += 1;
+        // non-trivial = the packet meets at least one registration (a branch of the chain fires, a closed
+        // listener is hit, or some route claims the payload type); identity = (cfg, history, packet)
+        if e["cls"]["by"] != "none" || e["cls"]["holders"] != json!(0) {
+            let key = format!("{}|{}|{}", e["cfg"], e["pre"], e["act"]);
+            hashes.extend_from_slice(&fnv64(key.as_bytes()).to_le_bytes());
+        }
         let pre = e["pre"].as_array().unwrap();
         steps += pre.len() as u64 + 1;
         let res = catch(|| {
@@ -270,7 +302,8 @@ fn run_demux(edges: &[Value], out: &mut NdjsonOut, shard: (usize, usize)) {
             }
         }
     }
-    out.push(&json!({"type": "summary", "edges": n, "steps": steps, "panics": panics, "drift": drift,
+    std::fs::write(hash_path, &hashes).expect("write hashes");
+    out.push(&json!({"type": "summary", "lines": nlines, "edges": n, "steps": steps, "panics": panics, "drift": drift,
                      "unreg": unreg, "deliveries": deliveries}));
 }
 
@@ -310,18 +343,23 @@ async fn bridge_world() -> BridgeWorld {
 
 const SENTINEL: &[u8] = b"\x00\x00verif-sentinel";
 
-fn run_bridge(cases: &[Value], out: &mut NdjsonOut, shard: (usize, usize)) {
+fn run_bridge(cases: &[Value], out: &mut NdjsonOut, shard: (usize, usize), hash_path: &str) {
     let rt = tokio::runtime::Builder::new_current_thread().enable_all().build().unwrap();
     let mut rng = Rng::from_env();
     let (mut n, mut steps, mut panics, mut drift, mut divs) = (0u64, 0u64, 0u64, 0u64, 0u64);
     let w = rt.block_on(bridge_world());
     let mid_ext_id: u8 = 3;
+    let mut hashes: Vec<u8> = Vec::new();
     for (idx, c) in cases.iter().enumerate() {
         if idx % shard.1 != shard.0 {
             continue;
         }
         n += 1;
         let cfg = &c["cfg"];
+        // non-trivial = some source sends at least two packets (every continuity rule needs a pair)
+        if c["steps"].as_array().unwrap().iter().any(|s| s["exp"]["first"] == json!(false)) {
+            hashes.extend_from_slice(&fnv64(c.to_string().as_bytes()).to_le_bytes());
+        }
         let fixed = cfg["fixed"].as_bool().unwrap(); // initial seq / ts offset given, else random in the code
         let rules: Vec<RtpRewriteRule> = cfg["rules"].as_array().unwrap().iter().map(|r| RtpRewriteRule {
             match_payload_type: if r["m"].as_i64().unwrap() < 0 { None } else { Some(r["m"].as_u64().unwrap() as u8) },
@@ -453,6 +491,7 @@ fn run_bridge(cases: &[Value], out: &mut NdjsonOut, shard: (usize, usize)) {
             drift += 1;
         }
     }
+    std::fs::write(hash_path, &hashes).expect("write hashes");
     out.push(&json!({"type": "summary", "cases": n, "steps": steps, "panics": panics, "drift": drift, "divergences": divs}));
 }
 
@@ -488,9 +527,9 @@ fn main() {
     match args[1].as_str() {
         "demux" => {
             quiet_panics();
-            run_demux(&rows, &mut out, shard)
+            run_demux(&rows, &mut out, shard, &format!("{}.hashes", args[3]))
         }
-        "bridge" => run_bridge(&rows, &mut out, shard),
+        "bridge" => run_bridge(&rows, &mut out, shard, &format!("{}.hashes", args[3])),
         x => panic!("unknown mode {x}"),
     }
     out.finish();
